@@ -423,6 +423,8 @@ class Interp(Engine):
             x = a if b is None else b
             if x is None:
                 return True
+            if hasattr(x, 'sym_is_none'):
+                return SBool(x.sym_is_none(self))
             if isinstance(x, (SOpt, SOptRef)):
                 return SBool(x.isnone)
             return False
